@@ -73,11 +73,49 @@ class MayGc:
         return None
 
 
+GUARD_TY = "vm::runtime::cao_lang_object::ObjectGcGuard"
+
+
+def guard_instantiations(F):
+    """callee short path -> {parameter local: [(caller, line)]}: call sites that move an ObjectGcGuard into a parameter
+    the callee declares generically (`impl Into<Value>`): the guard - and with it the protection of the object - ends
+    where the callee converts it, the callee's remaining body runs with an unrooted value."""
+    out = {}
+    for f in F.fns:
+        if not f.mir:
+            continue
+        for b in f.blocks:
+            t = b["term"]
+            if t["k"] != "call":
+                continue
+            func = t["func"]
+            tgt = func.get("resolved") or func.get("path")
+            if not tgt or not (func.get("resolved_local") or func.get("local")):
+                continue
+            g = F.fn(short(tgt), required=False)
+            if g is None or not g.raw.get("sig"):
+                continue
+            ins = g.raw["sig"]["inputs"]
+            for i, aty in enumerate(t.get("arg_tys", [])):
+                if aty == GUARD_TY and i < len(ins) and "ObjectGcGuard" not in ins[i]:
+                    out.setdefault(g.short, {}).setdefault(i + 1, []).append((f.root or f.short, t.get("ln")))
+    return out
+
+
 class Analysis:
     def __init__(self, F, maygc, returns_unrooted):
         self.F = F
         self.maygc = maygc
         self.returns_unrooted = returns_unrooted
+        self.guard_inst = guard_instantiations(F)
+
+    def _defs(self, fn):
+        from cao.facts import DefUse
+        c = getattr(fn, "_rooting_du", None)
+        if c is None:
+            c = DefUse(fn).defs
+            fn._rooting_du = c
+        return c
 
     def run(self, fn, param_sources=(), capture_sources=None):
         """Returns (hazards, returns_unrooted: bool, closure_seeds: {closure short: {capture name: origin label}})"""
@@ -302,7 +340,29 @@ class Analysis:
                 dst = term["dest"]
                 dty = fn.local_ty(dst["l"])
                 t = set()
-                if any(n in POP for n in names) or any(n in self.returns_unrooted for n in names) or any(n in RELEASE for n in names) \
+                released_param = None
+                if fn.short in self.guard_inst and any(n.endswith("convert::Into::into") or n.endswith("convert::From::from") for n in names) and args:
+                    p0 = op_place(args[0])
+                    if p0 is not None and not p0["p"]:
+                        src = p0["l"]
+                        # follow `_6 = move key`
+                        for _ in range(4):
+                            if src in self.guard_inst[fn.short]:
+                                released_param = src
+                                break
+                            ds = [d for d in self._defs(fn).get(src, []) if d[2] == "assign" and not d[3]["place"]["p"]]
+                            if len(ds) != 1 or ds[0][3]["rv"]["k"] != "use":
+                                break
+                            q = op_place(ds[0][3]["rv"]["op"])
+                            if q is None or q["p"]:
+                                break
+                            src = q["l"]
+                if released_param is not None:
+                    callers = sorted(set(c.rsplit("::", 1)[-1] for c, _l in self.guard_inst[fn.short][released_param]))
+                    lab = "%s.into() [guard moved in by %s]" % (fn.local_name(released_param) or "arg", ", ".join(callers))
+                    oid = new_origin(("call", b), "unrooted-result", lab, term.get("ln"))
+                    t.add((oid, True, None))
+                elif any(n in POP for n in names) or any(n in self.returns_unrooted for n in names) or any(n in RELEASE for n in names) \
                         or any("From<vm::runtime::cao_lang_object::ObjectGcGuard>" in n for n in names):
                     nm = fn.local_name(dst["l"])
                     lab = nm or names[-1].rsplit("::", 1)[-1]
